@@ -492,10 +492,20 @@ func entrySemantics(v *rtView) (bad []string, und string, n int) {
 			}
 		}
 	}()
+	// the table's size in this instantiation: every rule constant from 1 to the last is a valid start
+	last := int64(3)
+	if ie0, err := newInitEnv(v.in, "ab", false); err == nil {
+		if rules, _ := ie0.p.field("rules").v.(*SliceV); rules != nil && len(rules.elems) > 1 {
+			last = int64(len(rules.elems) - 1)
+		}
+	}
 	for _, tc := range []struct {
 		args []int64
 		want int
-	}{{nil, 1}, {[]int64{1}, 1}, {[]int64{2}, 2}, {[]int64{2, 1}, 2}, {[]int64{3}, 3}} {
+	}{{nil, 1}, {[]int64{1}, 1}, {[]int64{2}, 2}, {[]int64{2, 1}, 2}, {[]int64{3}, 3}, {[]int64{last}, int(last)}, {[]int64{last - 1}, int(last - 1)}} {
+		if tc.want < 1 {
+			continue
+		}
 		ie, err := newInitEnv(v.in, "ab", false)
 		if err != nil {
 			return nil, err.Error(), n
@@ -1117,4 +1127,21 @@ func memoMapOf(v Value) *MapV {
 		}
 	}
 	return nil
+}
+
+// rtEntrySemantics: R-entry-semantics — Parse() starts at rule 1, Parse(k, …) at rule k, for
+// every k up to the last rule constant.
+func rtEntrySemantics(a *aggregator, v *rtView) {
+	construct := "Parse starts at the first rule by default and at the rule asked for otherwise"
+	pos := ""
+	if f := v.cl["p.parse"]; f != nil {
+		pos = v.in.srcPos(f.Pos())
+	}
+	bad, und, n := entrySemantics(v)
+	if und != "" {
+		a.Und("R-entry-semantics", construct, v.in.Name, pos, und)
+		return
+	}
+	a.Decide(len(bad) == 0 && n >= 5, "R-entry-semantics", construct, v.in.Name, pos,
+		fmt.Sprintf("%d calls of Parse with no, one and two rule arguments, the last rule constant included: exactly the rule asked for runs (rule 1 by default)", n), strings.Join(bad, "; "))
 }
